@@ -81,6 +81,10 @@ def apply_faults(tokens, faults):
             # f[2] odd, a control character) as a token of its own
             ch = "\u03b1" if f[2] % 2 == 0 else "\x01"
             toks.insert(i, (ch, "badchar", None))
+        elif kind == "nul":
+            # an ASCII NUL as a token of its own: outside the strict character sets,
+            # and a reserved character (never a name or a value) in the default grammar
+            toks.insert(i, ("\0", "badchar", None))
         elif kind == "badunits":
             toks.insert(i, ("<m<s>", "badunits", None))
         elif kind == "begin-form":
@@ -152,6 +156,7 @@ def fault_strategy():
         st.tuples(st.just("truncate"), idx),
         st.tuples(st.just("cut"), idx, idx),
         st.tuples(st.just("badchar"), idx, idx),
+        st.tuples(st.just("nul"), idx),
         st.tuples(st.just("badunits"), idx),
         st.tuples(st.just("unclose"), idx),
         st.tuples(st.just("unclose"), idx),
@@ -320,7 +325,8 @@ def single_faults(acc, d):
             faults += [("delete", i), ("dup", i), ("swap", i), ("truncate", i),
                        ("cut", i, 1), ("cut", i, 2), ("badchar", i, 0),
                        ("badchar", i, 1), ("badunits", i), ("unclose", i),
-                       ("unclose-quote", i), ("badword", i), ("begin-form", i)]
+                       ("unclose-quote", i), ("badword", i), ("begin-form", i),
+                       ("nul", i)]
             faults += [("replace", i, k) for k in range(len(PUNCT) + 4)]
         for f in faults:
             toks = apply_faults(base, [f])
@@ -354,7 +360,7 @@ def _fault_menu(n):
     for i in range(n):
         faults += [("delete", i), ("dup", i), ("swap", i), ("truncate", i),
                    ("badchar", i, 1), ("badunits", i), ("unclose", i),
-                   ("unclose-quote", i), ("badword", i), ("begin-form", i)]
+                   ("unclose-quote", i), ("badword", i), ("begin-form", i), ("nul", i)]
         faults += [("replace", i, k) for k in range(len(PUNCT))]
     return faults
 
